@@ -37,17 +37,17 @@ var Langs = []*Lang{
 		Name:     "tm",
 		Alphabet: []byte{'\'', '"', '/', '*', '{', '}', '\\', '\n', '\r', 'a', '1', ':', 0xc3, 0xff},
 		Seeds: []string{
-			"a: b\n/* c\n* d",                                 // unterminated multi-line comment
-			"x = \"ab\\\"c\ny 'q\\' z",                         // unterminated string / quoted id
-			"t: /a[/]\\/b/\n c = /x",                           // regexp with class + unterminated regexp
-			"a: b { x := \"\\\n}\" '{' }\nc",                   // code block: nested quotes, escaped NL in a string
-			BOM + "language a(go);\n:: lexer\n",                // BOM + text
-			"a:\n  b c\n  // d\n| e ;\n<i> f: /g/ {h}\n",       // multi-line text
-			"s: { /* } */\n// }\n{}\n} t {\n u",                // code block with comments, then unterminated code
-			"p -> q/r ;\n\n%%\n${t}\nv",                        // templates section swallows the rest
+			"a: b\n/* c\n* d",                            // unterminated multi-line comment
+			"x = \"ab\\\"c\ny 'q\\' z",                   // unterminated string / quoted id
+			"t: /a[/]\\/b/\n c = /x",                     // regexp with class + unterminated regexp
+			"a: b { x := \"\\\n}\" '{' }\nc",             // code block: nested quotes, escaped NL in a string
+			BOM + "language a(go);\n:: lexer\n",          // BOM + text
+			"a:\n  b c\n  // d\n| e ;\n<i> f: /g/ {h}\n", // multi-line text
+			"s: { /* } */\n// }\n{}\n} t {\n u",          // code block with comments, then unterminated code
+			"p -> q/r ;\n\n%%\n${t}\nv",                  // templates section swallows the rest
 		},
 		ParserSeeds: []string{
-			"language l(go); /*c*/",                           // header only: trailing empty lists, comment before eoi
+			"language l(go); /*c*/", // header only: trailing empty lists, comment before eoi
 			"language l(go);\n:: lexer\nk: /b/ // c\n:: parser\nx: k /*d*/ ;\ny: ;\n",
 			"language l(go); :: lexer\nk: /b/\n:: parser\nz: /*e*/ | k /*f*/ | -> Q ; # g",
 			"language l(go); :: lexer k: 'b' :: parser %input z; z {T}: (k /*h*/)+ ;",
@@ -57,17 +57,17 @@ var Langs = []*Lang{
 		Name:     "js",
 		Alphabet: []byte{'\'', '/', '*', '{', '}', '\\', '\n', '\r', 'a', '1', '`', '$', 0xc3, 0xff},
 		Seeds: []string{
-			"a = 1 /* b\n c",                                   // unterminated comment
-			"s = 'a\\'b\\\nc' + \"d",                           // string with line continuation + unterminated string
-			"`a${b+`c${d}`}e\n` f `g${ {h:1} }\n$`{",           // nested templates, then unterminated one
-			"a = /[/]\\//g / 2\n/b/ /c",                        // regexp vs division, unterminated regexp
-			BOM + "a\n++\nb /1/ c",                             // BOM + text, ++ on a new line
-			"if (a)\n  b = 1\nelse { c-- }\n// d\n",            // multi-line text
-			"x = <a b='c'>t {d} </a>\n y",                      // JSX states
-			"a?.1:b\n?.c .5 0x 1_ \\u",                         // '?.' digit rewind rule, broken numbers/escapes
+			"a = 1 /* b\n c",                         // unterminated comment
+			"s = 'a\\'b\\\nc' + \"d",                 // string with line continuation + unterminated string
+			"`a${b+`c${d}`}e\n` f `g${ {h:1} }\n$`{", // nested templates, then unterminated one
+			"a = /[/]\\//g / 2\n/b/ /c",              // regexp vs division, unterminated regexp
+			BOM + "a\n++\nb /1/ c",                   // BOM + text, ++ on a new line
+			"if (a)\n  b = 1\nelse { c-- }\n// d\n",  // multi-line text
+			"x = <a b='c'>t {d} </a>\n y",            // JSX states
+			"a?.1:b\n?.c .5 0x 1_ \\u",               // '?.' digit rewind rule, broken numbers/escapes
 		},
 		ParserSeeds: []string{
-			"var v /*c*/ ; let w /*d*/\nu // e\n",              // optional initializer, ASI after a comment
+			"var v /*c*/ ; let w /*d*/\nu // e\n",               // optional initializer, ASI after a comment
 			"f(a, /*c*/) ;{ /*d*/ } function g(/*e*/) /*f*/ {}", // empty lists around comments
 			"x = `a${/*c*/b}c` /*d*/",                           // comments inside a template substitution
 			"if (a) /*c*/ b; else /*d*/ ;/*e*/ for(;;/*f*/) ; class K /*g*/ {}",
@@ -77,12 +77,12 @@ var Langs = []*Lang{
 		Name:     "json",
 		Alphabet: []byte{'"', '/', '*', '{', '}', '\\', '\n', '\r', 'a', '1', '[', ']', 0xc3, 0xff},
 		Seeds: []string{
-			"[1, 3 /* c\n 2",                                    // unterminated comment
-			"{\"a\\\"b\n\": \"c",                               // string with escape + LF, unterminated string
-			BOM + "{\"a\": [1, -2.5e+3]}\n",                    // BOM + text
-			"[\n  true,\n  null /* x */\n]\n",                  // multi-line text
-			"/**/ {\"\\u12\": false}\n/*/",                     // broken escape, '/*/' is not a comment
-			"[1.e, 01, -, tru]\n\"\\x\" \n A B",                // broken numbers, keywords, bad escape
+			"[1, 3 /* c\n 2",                    // unterminated comment
+			"{\"a\\\"b\n\": \"c",                // string with escape + LF, unterminated string
+			BOM + "{\"a\": [1, -2.5e+3]}\n",     // BOM + text
+			"[\n  true,\n  null /* x */\n]\n",   // multi-line text
+			"/**/ {\"\\u12\": false}\n/*/",      // broken escape, '/*/' is not a comment
+			"[1.e, 01, -, tru]\n\"\\x\" \n A B", // broken numbers, keywords, bad escape
 		},
 		ParserSeeds: []string{
 			"{\"a\": [1, /*c*/ 2], /*d*/ \"b\": {}} /*e*/",
@@ -94,12 +94,12 @@ var Langs = []*Lang{
 		Name:     "test",
 		Alphabet: []byte{'"', '/', '*', '{', '}', '\\', '\n', '\r', 'a', '1', '-', 0x00, 0xc3, 0xff},
 		Seeds: []string{
-			"decl1 /* a /* b */ c\n",                           // nested, unterminated block comment
-			"test { /* x /* y */ \n */ } // z\n",               // nested, terminated block comment + line comment
-			BOM + "decl2: a.b\n  12\n",                         // BOM + text
-			"%q\n% q\n %q 7\n9",                                // 'multiline' token and lastInt at eoi
-			"Zab\\u12 Zfoo \\ \"'\n test-->",                   // invalid_token rules and backtracking token
-			"eval(1.a+b)\n{- - x_ }\x00 ... -> f_a",            // multi-line text
+			"decl1 /* a /* b */ c\n",                // nested, unterminated block comment
+			"test { /* x /* y */ \n */ } // z\n",    // nested, terminated block comment + line comment
+			BOM + "decl2: a.b\n  12\n",              // BOM + text
+			"%q\n% q\n %q 7\n9",                     // 'multiline' token and lastInt at eoi
+			"Zab\\u12 Zfoo \\ \"'\n test-->",        // invalid_token rules and backtracking token
+			"eval(1.a+b)\n{- - x_ }\x00 ... -> f_a", // multi-line text
 		},
 		ParserSeeds: []string{
 			"decl1(a.b) /*c*/ decl2 // d\n",
@@ -111,10 +111,10 @@ var Langs = []*Lang{
 		Name:     "simple",
 		Alphabet: []byte{'\\', '\n', '\r', ' ', 'a', 'b', 'c', 's', '1', '_', '\t', 0xc3, 0xa9, 0xff},
 		Seeds: []string{
-			"simple b\n  \\abc c\n",                            // multi-line text
-			BOM + "c c c\r\n\\x1 a",                            // BOM + text
-			"a\n\n\\_\xc3\xa9z simple sim\tb",                  // non-ASCII identifier, keyword prefix
-			"b b\\ \\1 \n simples\n\\",                         // broken identifiers
+			"simple b\n  \\abc c\n",           // multi-line text
+			BOM + "c c c\r\n\\x1 a",           // BOM + text
+			"a\n\n\\_\xc3\xa9z simple sim\tb", // non-ASCII identifier, keyword prefix
+			"b b\\ \\1 \n simples\n\\",        // broken identifiers
 		},
 	},
 }
